@@ -377,6 +377,7 @@ def promoted_rvalue(crate, body, desc):
 def leaves(body, op, depth=40):
     """Backward data slice of an operand down to its leaf sources.  Returns a set of strings:
          'field:<a.b.c>'   read of a field path rooted at an argument / captured place
+         'lfield:<a.b>'    field path read through a local (e.g. `(*guard).x`, a captured `self` in a coroutine)
          'arg:<n>'         an argument without field projection
          'call:<name>'     result of a call (its arguments are sliced too)
          'const'           a constant
@@ -417,6 +418,9 @@ def leaves(body, op, depth=40):
             out.add("field:" + ".".join(names) if names else "arg:%d" % l)
             return
         names = place_leaf(p)
+        if names:
+            # field read through a local (e.g. `(*guard).x`, a captured `self`): report the field path seen here as well
+            out.add("lfield:" + ".".join(names))
         ds = body.defs_of(l)
         if not ds:
             out.add("unknown:undef")
@@ -444,3 +448,40 @@ def leaves(body, op, depth=40):
 
     walk(op, 0)
     return out
+
+
+def slice_locals(body, op, depth=40):
+    """Locals visited by the backward value slice of an operand (through use / ref / deref / cast / bin / agg / call arguments)."""
+    seen = set()
+
+    def walk(o, d):
+        if o is None or o.get("k") == "const" or d > depth:
+            return
+        p = o["p"] if o.get("k") in ("copy", "move") else o
+        if not isinstance(p, dict) or "l" not in p:
+            return
+        for e in p.get("p", []):
+            if isinstance(e, dict) and "idx" in e:
+                walk({"k": "copy", "p": {"l": e["idx"]}}, d + 1)
+        l = p["l"]
+        if l in seen:
+            return
+        seen.add(l)
+        for bb, idx, r in body.defs_of(l):
+            if idx == "term":
+                for a in r.get("args", []):
+                    walk(a, d + 1)
+                continue
+            k = r["k"]
+            if k in ("use", "cast", "un", "repeat"):
+                walk(r.get("o"), d + 1)
+            elif k in ("ref", "copyderef", "rawptr", "discr", "len"):
+                walk({"k": "copy", "p": r["p"]}, d + 1)
+            elif k == "bin":
+                walk(r["a"], d + 1)
+                walk(r["b"], d + 1)
+            elif k == "agg":
+                for x in r.get("ops", []):
+                    walk(x, d + 1)
+    walk(op, 0)
+    return seen
